@@ -161,7 +161,14 @@ Clauses(S, P, hasPrev, TauSet) ==   \* S = this solve's observation, P = previou
       maxKeyErr == MaxOver(KeyErr, 1, NK - 1)
       nonSymLmi == \E r \in 1..Len(lmis) : LET i == lmis[r]  n == Items[i].n IN
                       \E a, b \in 1..n : vecs[i][(a - 1) * n + b] # vecs[i][(b - 1) * n + a]
-      doCert == solved /\ haveDuals /\ inRange
+      \* every product multiplier x coefficient must stay far from TLC's 32-bit integers (a term of the identity of one of
+      \* these O(1) models that exceeds 60 in absolute value cannot be part of a certificate that closes within tolerance)
+      TermFits(x, p, q) == p = 0 \/ Abs(x) <= 60000000 \div ((Abs(p) \div q) + 1)
+      termsOK == /\ \A r \in 1..Len(rows) : \A key \in 1..NK : TermFits(Dual(rows[r])[1], vecs[rows[r]][1][key][1], vecs[rows[r]][1][key][2])
+                 /\ \A r \in 1..Len(lmis) : \A e \in 1..Len(Dual(lmis[r])) : \A key \in 1..NK :
+                       TermFits(Dual(lmis[r])[e], vecs[lmis[r]][e][key][1], vecs[lmis[r]][e][key][2])
+      doCert == solved /\ haveDuals /\ inRange /\ termsOK
+      c01h == IF solved /\ haveDuals /\ ~(inRange /\ termsOK) THEN {<<"C01", "multiplier-too-large-for-a-certificate-of-this-model", 0>>} ELSE {}
       c01a == IF ~solved THEN {} ELSE IF ~haveDuals THEN {<<"C01", "multiplier-missing", 0>>} ELSE {}
       c01b == IF doCert /\ badKeys # {} THEN {<<"C01", IF nonSymLmi THEN "identity-with-lmi-not-symmetric-as-written:" \o S.lmishape ELSE "identity",
                                                 CHOOSE k \in badKeys : \A j \in badKeys : KeyErr(j) <= KeyErr(k)>>} ELSE {}
@@ -374,7 +381,7 @@ Clauses(S, P, hasPrev, TauSet) ==   \* S = this solve's observation, P = previou
               ELSE IF prev.np = np /\ NormSent(prev) # NormSent(S) THEN {<<"C11", "back-ends-were-sent-different-constraint-lists", 0>>} ELSE {}
       cXa == IF S.crash # "" THEN {<<"ALL", "solve-raises: " \o S.crash, 0>>} ELSE {}
       info == IF doCert THEN {<<"INFO", "max-identity-error", maxKeyErr>>} ELSE {}
-  IN info \cup cXa \cup c05a \cup c05b \cup c05c \cup c05d \cup c05e \cup c05f \cup c05g
+  IN info \cup cXa \cup c05a \cup c05b \cup c05c \cup c05d \cup c05e \cup c05f \cup c05g \cup c01h
      \cup c01a \cup c01b \cup c01c \cup c01d \cup c01e \cup c01f \cup c01g
      \cup c02a \cup c02b \cup c02c \cup c02d \cup c02e \cup c02f \cup c02g \cup c02h \cup c02i \cup c02j
      \cup c14a \cup c14b \cup c14c \cup c14d \cup c14e
